@@ -49,6 +49,9 @@ IfE(id, c, a, b) == [k |-> "ife", id |-> id, c |-> c, a |-> a, b |-> b]   \* if(
 FnE(f)       == [k |-> "fn", f |-> f]                       \* f()  - functional subroutine, STRING
 Eq(h, v)     == [k |-> "eq", h |-> h, v |-> v]              \* req.http.<h> == "<v>"
 FnC(f)       == [k |-> "fnc", f |-> f]                      \* f()  - functional subroutine, BOOL
+IsSet(h)     == [k |-> "isset", h |-> h]                    \* req.http.<h>          - true iff the header is set
+InAcl(h)     == [k |-> "acl", h |-> h]                      \* req.http.<h> ~ internal - a runtime error unless the
+                                                            \*   header holds an address (not set, or not an address)
 
 Set(id, h, e)  == [k |-> "set", id |-> id, h |-> h, e |-> e]
 Log(id, e)     == [k |-> "log", id |-> id, e |-> e]
@@ -75,6 +78,12 @@ Main1 ==
                                    << Elif(Eq("A", "2"), << RetV("p3", Lit("two")) >>) >>,
                                    TRUE, << RetV("p4", Lit("other")) >>) >>),
     helper |-> Sub("scoped", << Set("h1", "H", Lit("orig")) >>),
+    \* nested if() expressions and nested if statements whose inner condition is only safe under the outer guard
+    zone  |-> Sub("scoped", <<
+        Set("z1", "Zone", IfE("z1e", IsSet("C"), IfE("z1f", InAcl("C"), Lit("internal"), Lit("external")), Lit("unknown"))),
+        If("z2", IsSet("C"), << If("z3", InAcl("C"), << Set("z4", "Zs", Lit("in")) >>, << >>, TRUE, << Set("z5", "Zs", Lit("out")) >>) >>,
+           << >>, TRUE, << Set("z6", "Zs", Lit("none")) >>),
+        Set("z7", "Zalt", IfE("z7e", Eq("A", "1"), Lit("a1"), IfE("z7f", InAcl("C"), Lit("i"), Lit("e")))) >>),
     vcl_recv |-> Sub("scoped", <<
         If("r1", Eq("A", "1"), << Set("r2", "R", Lit("a")) >>,
            << Elif(Eq("A", "2"), << Set("r3", "R", Lit("b")) >>),
@@ -113,6 +122,14 @@ Main2 ==
     helper |-> Sub("scoped", << If("h0", Eq("A", "9"), << Set("h2", "H", Lit("nine")) >>,
                                    << Elif(Eq("A", "8"), << Set("h3", "H", Lit("eight")) >>) >>, FALSE, << >>),
                                 Set("h1", "H", Lit("orig")) >>),
+    zone  |-> Sub("scoped", <<
+        Set("z1", "Zone", Cat(Lit("z="), IfE("z1e", IsSet("C"), IfE("z1f", InAcl("C"), Lit("internal"), Lit("external")), Lit("unknown")))),
+        Switch("z2", "A", <<
+           Case("1", << Set("z3", "Zs", IfE("z3e", IsSet("C"), IfE("z3f", InAcl("C"), Lit("in"), Lit("out")), Lit("none"))) >>, FALSE),
+           Case("<default>", << If("z4", IsSet("C"), << If("z5", FnC("bump"), << Set("z6", "Zs", Lit("set")) >>, << >>, FALSE, << >>) >>,
+                                   << >>, TRUE, << Set("z8", "Zs", Lit("none")) >>) >>, FALSE) >>),
+        Log("z9", Cat(Lit("zone "), IfE("z9e", Eq("A", "1"), Lit("a1"), IfE("z9f", InAcl("C"), Lit("i"), Lit("e"))))),
+        Set("z7", "Zalt", IfE("z7e", Eq("A", "1"), Lit("a1"), IfE("z7f", InAcl("C"), Lit("i"), Lit("e")))) >>),
     vcl_recv |-> Sub("scoped", <<
         Set("r0", "R", Lit("d")),
         If("r1", Eq("A", "1"), << Set("r2", "R", Lit("a")) >>,
@@ -178,7 +195,9 @@ Rewritten(s) ==
                             [j \in 1..Len(s.cases) |->
                                [s.cases[j] EXCEPT !.body = << Mark("branch", s.id \o "_" \o ToString(j)),
                                                               Mark("branch", s.id \o "_case" \o ToString(j)) >>
-                                                            \o InstrSeq(@)]]]
+                                                            \o InstrSeq(@)
+                                                            \* the break; / fallthrough; that ends the case is a statement too
+                                                            \o << Mark("statement", s.id \o "_end" \o ToString(j)) >>]]]
     [] OTHER          -> s
 
 InstrSeq(ss) == IF ss = << >> THEN << >> ELSE Before(Head(ss)) \o << Rewritten(Head(ss)) >> \o InstrSeq(Tail(ss))
@@ -203,12 +222,40 @@ InstrIf(s) ==
 
 Instrument(P) == [n \in DOMAIN P |-> [P[n] EXCEPT !.body = << Mark("subroutine", n) >> \o InstrSeq(@)]]
 
+\* every marker createMarker registers (Coverage.SetupSubroutine / SetupStatement / SetupBranch), as "kind:id"
+RECURSIVE MarkersOf(_)
+MarkersOfStmt(s) ==
+  CASE s.k = "mark"   -> {s.kind \o ":" \o s.id}
+    [] s.k = "if"     -> MarkersOf(s.th) \cup MarkersOf(s.el)
+                         \cup UNION {MarkersOf(s.elifs[j].body) : j \in 1..Len(s.elifs)}
+    [] s.k = "switch" -> UNION {MarkersOf(s.cases[j].body) : j \in 1..Len(s.cases)}
+    [] OTHER          -> {}
+MarkersOf(ss) == IF ss = << >> THEN {} ELSE MarkersOfStmt(Head(ss)) \cup MarkersOf(Tail(ss))
+\* per main VCL variant and marker kind, evaluated once (constant-level definitions are cached by TLC)
+MarkKinds == {"subroutine", "statement", "branch"}
+MarkerSets ==
+  [m \in {1, 2} |->
+     LET I == Instrument(MainProg(m))
+         all == UNION {MarkersOf(I[n].body) : n \in DOMAIN I}
+         RECURSIVE Of(_, _)
+         OfStmt(s, kind) == CASE s.k = "mark"   -> IF s.kind = kind THEN {s.kind \o ":" \o s.id} ELSE {}
+                              [] s.k = "if"     -> Of(s.th, kind) \cup Of(s.el, kind)
+                                                   \cup UNION {Of(s.elifs[j].body, kind) : j \in 1..Len(s.elifs)}
+                              [] s.k = "switch" -> UNION {Of(s.cases[j].body, kind) : j \in 1..Len(s.cases)}
+                              [] OTHER          -> {}
+         Of(ss, kind) == IF ss = << >> THEN {} ELSE OfStmt(Head(ss), kind) \cup Of(Tail(ss), kind)
+     IN [all |-> all, byKind |-> [k \in MarkKinds |-> UNION {Of(I[n].body, k) : n \in DOMAIN I}]]]
+AllMarkers(m) == MarkerSets[m].all
+KindCount(M, m, kind) == Cardinality(M \cap MarkerSets[m].byKind[kind])
+
 (***************************************************************************)
 (* The interpreter, as far as the pool exercises it.  env is the state of  *)
 (* one Interpreter + its context.Context.                                  *)
 (***************************************************************************)
-Hdrs     == {"A", "S", "Z", "R", "T", "E", "V", "N", "H", "L"}
-SubNames == {"bump", "pick", "helper", "vcl_recv", "vcl_deliver", "mock_helper", "mock_pick"}
+Hdrs     == {"A", "S", "Z", "R", "T", "E", "V", "N", "H", "L", "C", "Zone", "Zs", "Zalt"}
+SubNames == {"bump", "pick", "helper", "zone", "vcl_recv", "vcl_deliver", "mock_helper", "mock_pick"}
+\* acl internal { "192.0.2.0"/24; } - the addresses the pool uses
+AclAnswer(v) == IF v = "192.0.2.5" THEN "in" ELSE IF v = "10.0.0.1" THEN "out" ELSE "error"
 
 FreshEnv ==
   [ hdr   |-> [h \in Hdrs |-> NOTSET],           \* req.http.*
@@ -235,6 +282,8 @@ RunSub(P, name, env) ==
 
 EvalC(P, c, env) ==       \* -> [env, b, ok]
   CASE c.k = "eq"  -> [env |-> env, b |-> (env.hdr[c.h] = c.v), ok |-> TRUE]
+    [] c.k = "isset" -> [env |-> env, b |-> (env.hdr[c.h] # NOTSET), ok |-> TRUE]
+    [] c.k = "acl"   -> [env |-> env, b |-> (AclAnswer(env.hdr[c.h]) = "in"), ok |-> (AclAnswer(env.hdr[c.h]) # "error")]
     [] c.k = "fnc" -> LET r == RunSub(P, c.f, env) IN
                       [env |-> r.env, b |-> (r.val = "true"), ok |-> (r.ctl = "return")]
 
@@ -364,6 +413,14 @@ CoreTests ==
     two_var      |-> T(<< "RECV", "DELIVER" >>, FALSE, << <<"readvar", "req.url">>, <<"readvar", "resp.status">>, <<"const", "true", TRUE>> >>),
     deliver_fx   |-> T(<< "DELIVER" >>, FALSE, << <<"call", "vcl_deliver">>, <<"a_hdr_eq", "N", "(null)i">>, <<"a_state", "DELIVER">> >>),
     deliver_log  |-> T(<< "DELIVER" >>, FALSE, << <<"call", "vcl_deliver">>, <<"a_called", "bump", 1>> >>),
+    zone_unset   |-> T(RECV, FALSE, << <<"sethdr", "A", "1">>, <<"call", "zone">>, <<"a_hdr_eq", "Zalt", "a1">>,
+                                       <<"a_called", "zone", 1>>, <<"a_not_called", "bump">> >>),
+    zone_in      |-> T(RECV, FALSE, << <<"sethdr", "C", "192.0.2.5">>, <<"call", "zone">>, <<"a_hdr_eq", "Zalt", "i">>,
+                                       <<"a_not_state", "LOOKUP">>, <<"a_not_error">> >>),
+    zone_out     |-> T(RECV, FALSE, << <<"sethdr", "C", "10.0.0.1">>, <<"sethdr", "A", "1">>, <<"call", "zone">>,
+                                       <<"a_hdr_eq", "Zalt", "a1">> >>),
+    zone_bad     |-> T(RECV, FALSE, << <<"sethdr", "C", "abc">>, <<"call", "zone">>, <<"const", "true", TRUE>> >>),
+    zone_noguard |-> T(RECV, FALSE, << <<"call", "zone">>, <<"log", "unreachable">> >>),
     empty        |-> T(RECV, FALSE, << >>)
   ]
 
@@ -462,11 +519,13 @@ VARIABLES
   boundTo,   \* which interpreter the process-global injected functions are closures over (function.Inject)
   prev,      \* the previous interpreter (what a stale closure would read)
   counter,   \* tester/shared/counter.go
+  covhit,    \* tester/shared/coverage.go: the markers hit so far (one Coverage object for the whole run)
   cases      \* the TestCase list, each with the requirement's answer next to the mechanism's
 
-vars == << main, cov, order, pc, si, cur, curId, boundTo, prev, counter, cases >>
+vars == << main, cov, order, pc, si, cur, curId, boundTo, prev, counter, covhit, cases >>
 
-Program == IF cov THEN Merge(Instrument(MainProg(main)), TestSubs) ELSE Plain(main)
+Programs == [m \in {1, 2} |-> [c \in BOOLEAN |-> IF c THEN Merge(Instrument(MainProg(m)), TestSubs) ELSE Plain(m)]]
+Program == Programs[main][cov]
 
 NFam(o) == Cardinality({i \in 1..Len(o) : IsFam(o[i])})
 
@@ -475,6 +534,7 @@ Init ==
   /\ order = << >> /\ pc = "idle" /\ si = 1
   /\ cur = FreshEnv /\ prev = FreshEnv /\ curId = 0 /\ boundTo = 0
   /\ counter = [asserts |-> 0, passes |-> 0, fails |-> 0, skips |-> 0]
+  /\ covhit = {}
   /\ cases = << >>
 
 \* case *ast.SubroutineDeclaration: i := t.setupInterpreter(defs); i.TestProcessInit(mockRequest)
@@ -488,7 +548,7 @@ Setup(t) ==
   /\ prev' = cur /\ cur' = FreshEnv /\ curId' = curId + 1
   /\ boundTo' = curId + 1               \* function.Inject(tf.TestingFunctions(i, ...)) overrides the global table
   /\ si' = 1 /\ pc' = "running"
-  /\ UNCHANGED << main, cov, counter, cases >>
+  /\ UNCHANGED << main, cov, counter, covhit, cases >>
 
 \* for _, s := range metadata.Scopes { ... }
 RunScope ==
@@ -505,7 +565,7 @@ RunScope ==
         THEN /\ cases' = Append(cases, [name |-> t, scope |-> sc, req |-> rq,
                                         mech |-> [verdict |-> "skip", kind |-> "", logs |-> << >>], dbl |-> FALSE])
              /\ counter' = [counter EXCEPT !.skips = @ + 1]
-             /\ UNCHANGED cur
+             /\ UNCHANGED << cur, covhit >>
         ELSE /\ cases' = Append(cases, [name |-> t, scope |-> sc, req |-> rq,
                                         mech |-> [verdict |-> r.verdict, kind |-> r.kind, logs |-> r.env.logs],
                                         dbl |-> r.env.dbl])
@@ -515,6 +575,7 @@ RunScope ==
                               !.passes  = @ + r.np,
                               !.fails   = @ + r.nf + (IF r.verdict = "fail" THEN 1 ELSE 0)]
              /\ cur' = r.env
+             /\ covhit' = covhit \cup r.env.cov
      /\ IF si < Len(d.scopes) THEN si' = si + 1 /\ pc' = "running" ELSE si' = 1 /\ pc' = "idle"
   /\ UNCHANGED << main, cov, order, curId, boundTo, prev >>
 
@@ -542,7 +603,9 @@ CountsAddUp     == Summary.passed + Summary.failed + Summary.skipped = Summary.t
 ExitFaithful    == pc = "idle" => (ExitMech = 1 <=> \E i \in 1..Len(cases) : cases[i].mech.verdict = "fail")
 BoundCurrent    == pc = "running" => boundTo = curId
 \* without coverage nothing deviates at all
-NoCovNoDeviation == ~cov => \A i \in 1..Len(cases) : ~cases[i].dbl
+NoCovNoDeviation == ~cov => (covhit = {} /\ \A i \in 1..Len(cases) : ~cases[i].dbl)
+\* only registered markers are ever hit
+HitsAreRegistered == covhit \subseteq AllMarkers(main)
 \* the exit status is the requirement's unless a case deviates
 ExitAgrees == pc = "idle" => ((\A i \in 1..Len(cases) : ~Deviates(cases[i])) => ExitMech = ExitReq)
 
@@ -555,6 +618,11 @@ Emit ==
       tests |-> [i \in 1..Len(order) |-> [name |-> order[i], scopes |-> Tests[order[i]].scopes,
                                            skip |-> Tests[order[i]].skip, body |-> Tests[order[i]].body]],
       cases |-> cases, summary |-> Summary, counter |-> counter,
+      coverage |-> IF cov
+                   THEN [total |-> [k \in {"subroutine", "statement", "branch"} |-> KindCount(AllMarkers(main), main, k)],
+                         hit   |-> [k \in {"subroutine", "statement", "branch"} |-> KindCount(covhit, main, k)]]
+                   ELSE [total |-> [k \in {"subroutine", "statement", "branch"} |-> 0],
+                         hit   |-> [k \in {"subroutine", "statement", "branch"} |-> 0]],
       exitReq |-> ExitReq, exitMech |-> ExitMech])>>)
 
 EmitMain ==
